@@ -38,7 +38,7 @@ def spec_part_recipe(rng, node=None):
             if which == "differ":
                 p["index"] = ("prim", rng.choice([2, 3]))
         return p
-    p = {"rk": rk, "key": None, "index": None, "value": None, "cond": None, "label": rng.choice([None, None, "lab", "x y"])}
+    p = {"rk": rk, "key": None, "index": None, "value": None, "cond": None, "label": rng.choice([None, None, None, "lab", "x y", "", 0, False])}
 
     def arg(kinds, prims):
         r = rng.random()
@@ -87,6 +87,16 @@ def yaml_text(struct):
     buf = io.StringIO()
     y.dump(struct, buf)
     return buf.getvalue()
+
+
+def styled_tail(rng):
+    """one more rule, hand-written in YAML block style, whose LAST node is a block scalar (literal / folded, clip /
+    strip / keep): what the text means is what a YAML loader says, to the last new line"""
+    style = rng.choice(["|", "|", "|-", "|+", ">", ">-"])
+    body = rng.choice(["      two\n      lines\n", "      one\n", "      a\n\n      b\n", "      x  \n"])
+    extra = rng.choice(["", "", "\n", "\n\n"]) if style.endswith("+") or rng.random() < 0.3 else ""
+    key = rng.choice(["value.equal_to", "value.not_equal_to", "value.in"])
+    return "- path: [" + rng.choice(["zz", "a", "0"]) + "]\n  condition:\n    " + key + ": " + style + "\n" + body + extra
 
 
 def yaml_load(text):
@@ -162,6 +172,8 @@ def make_events(rep, rng, n, events, recipes, with_dsl=True):
                     if not json_safe(plain):
                         continue
                     text = yaml_text({"rules": plain})
+                    if rng.random() < 0.3:
+                        text = rng.choice(["", "\n", "# a schema\n", "---\n"]) + ("rules:\n" if not plain else text) + styled_tail(rng)
                     loaded = yaml_load(text)["rules"]
                     if route == "yaml":
                         parser = lambda: valida.Schema.from_yaml(text)      # noqa: E731
